@@ -14,7 +14,9 @@ CHECKS = {
                      'model of load::read (steps renamed / removed / renumbered, default list and pool depth changed, a generator with a helper input), '
                      'symbolic dirty bits per (generation, step), targets, -f spelling, schedule and outcomes: the manifest phase touches only the '
                      'generator\'s closure, a reload happens exactly when a command ran for it, everything afterwards refers to the new generation, '
-                     'failed regeneration stops with a non-zero exit, settled steps are not examined twice',
+                     'failed regeneration stops with a non-zero exit, settled steps are not examined twice; two further families run the REAL load::read '
+                     '(Parser, Loader, canonicalisation, numbering) over the generation\'s manifest text, single-file and split over an included file the '
+                     'generator rewrites, with every examined step identified from the loaded graph',
                 note='trusted: load::read modelled (generation k on the k-th call; the manifest is file 0 as in the real loader), S-cut scheduler environment, '
                      'parse_args modelled; failing paths are replayed end to end with the n2 binary and generator scripts',
                 tech=M + '; two-generation manifest model; end-to-end native replay', ref='DESIGN.md section 4, C17'),
@@ -42,7 +44,8 @@ CHECKS = {
                 text='bounded symbolic execution of the real dirty check (check_build_dirty, hash_build, record_finished, write_build) with '
                      'symbolic recorded and current mtimes (64+32 bit per file), missing flags, command / response-file text and file numbering: '
                      'one-step kernel with the obligation "judged clean => nothing recorded changed", and a two-step chain run by the real '
-                     'Work::run where the consumer must see the mtime its producer just wrote; failing models are replayed end to end with the n2 binary',
+                     'Work::run where the consumer must see the mtime its producer just wrote, the same chain with the real command runner, run_task '
+                     'and read_depfile in the loop (the command reports through depfile text); failing models are replayed end to end with the n2 binary',
                 note='trusted: graph::stat as symbolic file system, DefaultHasher as recording hasher (collision-free SipHash assumed), executor model applying '
                      'command effects, log-file model; the property\'s own assumptions (mtime changes with content, no concurrent writers, no phony dirtying inputs)',
                 tech=M + '; recording hasher; end-to-end native replay', ref='DESIGN.md section 4, C02/C03'),
@@ -55,7 +58,9 @@ CHECKS = {
     'C09': dict(engine='M', cat='other',
                 text='bounded symbolic execution of the real record_finished / check_build_dirty on a two-step chain with symbolic old and newly '
                      'reported dependency lists (spelling variants, overlap with declared and order-only inputs, missing files), the one-step dirty '
-                     'kernel, and task::extract_showincludes on symbolic lines',
+                     'kernel, the chain with the real Runner::start/wait, run_task, read_depfile and extract_showincludes in the loop (8 report '
+                     'variants as depfile text or /showIncludes output; the output passed on for display is checked too), and '
+                     'task::extract_showincludes on symbolic lines',
                 note='trusted: as C02; the executor model supplies the reported list; persistence through the log is C07/C08, depfile syntax C15',
                 tech=M, ref='DESIGN.md section 4, C09'),
     'C01': dict(engine='M', cat='model_checking',
@@ -96,7 +101,8 @@ CHECKS = {
                 tech=M + '; ' + K, ref='DESIGN.md section 4, C08'),
     'C12': dict(engine='M+K', cat='other',
                 text='bounded symbolic execution of the real loader, error formatter, target canonicalisation and depfile reader on '
-                     'symbolic bytes/offsets (z3 decides every branch and every bounds/unchecked-access/overflow/panic obligation), plus '
+                     'symbolic bytes/offsets (z3 decides every branch and every bounds/unchecked-access/overflow/panic obligation; the call-depth '
+                     'bound makes unbounded recursion a finding), a structured family of rule/build bindings referring to each other, plus '
                      'Kani/CBMC on the leaf scanners with real memory semantics; all inputs within the stated byte bounds are covered, '
                      'longer inputs are not',
                 note='trusted: hand-written std models (listed per run), Kani/CBMC memory model; assume/guarantee split for the CR LF scanner invariant',
